@@ -5,7 +5,7 @@ C02, execution half — F2 with `break`/`continue`: generator-side facts.
 allocated (what makes `BreakInstr`/`ContinueInstr` find the right `loopStart`).
 -/
 import ZygoVerif.Proofs.SimF2Ind
-import ZygoVerif.Proofs.SimFbGen
+import ZygoVerif.Proofs.SimFb
 set_option linter.unusedSimpArgs false
 set_option linter.unusedVariables false
 namespace ZygoVerif.Sim
@@ -554,5 +554,164 @@ theorem compileArms_total_Fx : ∀ (ls : List (Option String)) (arms : List (Exp
       · exact ⟨(hin1 x hx).1.mono (Nat.le_refl _) (Nat.le_trans hf2.2.1 hf3.2.1),
           (hin1 x hx).2.mono (Nat.le_refl _) (Nat.le_trans hf2.2.1 hf3.2.1)⟩
 end
+
+/-! ## The enclosing loops at run time -/
+
+/-- the run-time facts about one enclosing loop -/
+structure CtxF1 (γ : LCtx) (sc : Nat) (s : St) (rs : Ref.St) : Prop where
+  idlt : γ.id < s.loops.length
+  start : findLoopStart (fnOf s s.curfunc).code γ.id = some γ.start
+  brk : (γ.start : Int) + (s.loops.getD γ.id {}).breakOff = γ.brkPos
+  cont : (γ.start : Int) + (s.loops.getD γ.id {}).contOff = γ.contPos
+  lin : ∃ extra, s.linear = extra ++ γ.lin ∧ extra.length + γ.depth + 1 = sc
+  frlt : γ.fr < s.scopes.length
+  chain : ∃ k, ChainF (isFnScope s) rs.frames k γ.fr γ.lin ∧ FnChainF s rs.frames γ.lin k s.curfunc
+  bottom : γ.lin.getLast? = some (some 0)
+  data : ∃ G, s.data = G ++ some (.mark γ.id) :: γ.D ∧ GoodAbove γ.id G
+
+def CtxF (Γ : List LCtx) (sc : Nat) (s : St) (rs : Ref.St) : Prop := ∀ γ ∈ Γ, CtxF1 γ sc s rs
+
+/-- everything a balanced piece of code may do keeps the loop facts -/
+theorem CtxF.after {Γ : List LCtx} {sc : Nat} {s s' : St} {rs rs' : Ref.St} (h : CtxF Γ sc s rs)
+    (hfn : fnOf s' s'.curfunc = fnOf s s.curfunc) (hfr : FrameF s s') (hext : RExt rs rs')
+    (hd : ∃ X, s'.data = X ++ s.data ∧ ∀ γ ∈ Γ, GoodAbove γ.id X) : CtxF Γ sc s' rs' := by
+  intro γ hγ
+  obtain ⟨h1, h2, h3, h4, h5, h6, ⟨k, hch, hfc⟩, h8, h9⟩ := h γ hγ
+  obtain ⟨X, hX, hgood⟩ := hd
+  obtain ⟨G, hG, hGg⟩ := h9
+  have hflags : ∀ i, i ≤ γ.fr → isFnScope s' i = isFnScope s i := fun i hi => hfr.flags i (by omega)
+  have hk : FnsKeep s s' := FnsKeep.of_frame hfr.toFrame (fns_ne_nil_of_lt hfc.lt)
+  refine ⟨Nat.lt_of_lt_of_le h1 hfr.loopsLen, by rw [hfn]; exact h2, by rw [hfr.loops γ.id h1]; exact h3,
+    by rw [hfr.loops γ.id h1]; exact h4, by rw [hfr.linear]; exact h5, Nat.lt_of_lt_of_le h6 hfr.scLen,
+    ⟨k, hch.congr hext.1 hflags, ?_⟩, h8, ⟨X ++ G, by rw [hX, hG, List.append_assoc], (hgood γ hγ).append hGg⟩⟩
+  rw [hfr.curfunc]
+  exact hfc.transfer s.scopes.length hfr.flags hext.1 hk (fun e he => Nat.lt_trans (hch.k_lt e he) h6)
+    (takeToBoundary_chain hch hflags)
+
+/-- `Frame` without the linear stack (a `break`/`continue` pops scopes) -/
+structure FrameNL (s s' : St) : Prop where
+  curfunc : s'.curfunc = s.curfunc
+  addr : s'.addr = s.addr
+  susp : s'.suspended = s.suspended
+  fnsLen : s.fns.length ≤ s'.fns.length
+  fns : ∀ id, id < s.fns.length → fnOf s' id = fnOf s id
+  loopsLen : s.loops.length ≤ s'.loops.length
+  loops : ∀ id, id < s.loops.length → s'.loops.getD id {} = s.loops.getD id {}
+  scLen : s.scopes.length ≤ s'.scopes.length
+  flags : ∀ i, i < s.scopes.length → isFnScope s' i = isFnScope s i
+
+theorem FrameF.toNL {s s' : St} (h : FrameF s s') : FrameNL s s' :=
+  ⟨h.curfunc, h.addr, h.susp, h.fnsLen, h.fns, h.loopsLen, h.loops, h.scLen, h.flags⟩
+
+theorem FrameNL.trans {a b c : St} (h₁ : FrameNL a b) (h₂ : FrameNL b c) : FrameNL a c :=
+  ⟨h₂.curfunc.trans h₁.curfunc, h₂.addr.trans h₁.addr, h₂.susp.trans h₁.susp, Nat.le_trans h₁.fnsLen h₂.fnsLen,
+   fun id hid => (h₂.fns id (Nat.lt_of_lt_of_le hid h₁.fnsLen)).trans (h₁.fns id hid),
+   Nat.le_trans h₁.loopsLen h₂.loopsLen,
+   fun id hid => (h₂.loops id (Nat.lt_of_lt_of_le hid h₁.loopsLen)).trans (h₁.loops id hid),
+   Nat.le_trans h₁.scLen h₂.scLen,
+   fun i hi => (h₂.flags i (Nat.lt_of_lt_of_le hi h₁.scLen)).trans (h₁.flags i hi)⟩
+
+theorem FrameNL.toF {s s' : St} (h : FrameNL s s') (hl : s'.linear = s.linear) : FrameF s s' :=
+  ⟨⟨hl, h.curfunc, h.addr, h.susp, h.fnsLen, h.fns, h.loopsLen, h.loops⟩, h.scLen, h.flags⟩
+
+/-- the relation after the scopes opened inside a loop have been popped -/
+theorem RelF.relin {m : Nat → Nat} {s s' : St} {rs : Ref.St} {env env' : Nat} (h : RelF m s rs env)
+    (hsc : s'.scopes = s.scopes) (hfns : s'.fns = s.fns) (hcur : s'.curfunc = s.curfunc) (hheap : s'.heap = s.heap)
+    (htr : s'.trace = s.trace) (hb : s'.linear.getLast? = some (some 0))
+    (hch : ∃ k, ChainF (isFnScope s) rs.frames k env' s'.linear ∧ FnChainF s rs.frames s'.linear k s.curfunc) :
+    RelF m s' rs env' := by
+  have hso : ∀ i, scopeOf s' i = scopeOf s i := fun i => by unfold scopeOf; rw [hsc]
+  have hfl : isFnScope s' = isFnScope s := by funext i; unfold isFnScope; rw [hso]
+  have hk : FnsKeep s s' := FnsKeep.of_fns_eq hfns
+  have hgood : ∀ id, GoodFn m s rs id → GoodFn m s' rs id := fun id hg =>
+    hg.mono hk (by rw [hsc]; exact Nat.le_refl _) (fun i _ => by rw [hfl]) (RExt.refl rs) rfl
+  obtain ⟨k, hc, hfc⟩ := hch
+  obtain ⟨fr0, hf0, hp0, hfl0⟩ := h.root0
+  refine ⟨by rw [hsc]; exact h.len, fun i x => by rw [hso]; exact h.vars i x, ⟨fr0, hf0, hp0, by rw [hfl]; exact hfl0⟩,
+    h.par, hb, ⟨k, by rw [hfl]; exact hc, ?_⟩,
+    fun i hi => by
+      rw [hfl] at hi; obtain ⟨t, h1, h2⟩ := h.fscopes i hi
+      exact ⟨t, by rw [hso]; exact h1, by unfold fnOf; rw [hfns]; exact h2⟩,
+    by rw [hheap]; exact h.heap, by rw [htr]; exact h.trace, h.globals,
+    fun i x v hv => ValIn.mono (h.vok i x v (by rw [← hso]; exact hv)) hgood, by rw [hheap]; exact HeapIn.mono h.hok hgood⟩
+  rw [hcur]
+  exact hfc.transfer (s := s) (s' := s') rs.frames.length (fun i _ => by rw [hfl]) (fun i fr hf => ⟨fr, hf, rfl⟩) hk
+    (fun e he => Nat.lt_trans (hc.k_lt e he) hc.lt) (by rw [hfl])
+
+/-! ## The simulation statement with non-local exits -/
+
+/-- a `break`/`continue` was executed: control is at `tgt` in the loop of `γ`, the scopes opened inside
+the loop popped; above the data stack there is only garbage the loop's `clearMark`/`popUntilMark` removes -/
+def JumpedF (tgt : Int) (γ : LCtx) (Γ : List LCtx) (m : Nat → Nat) (s : St) (rs rs' : Ref.St) : Prop :=
+  ∃ (s' : St) (m' : Nat → Nat) (X : List (Option Val)), ReachX s s' ∧ s'.pc = tgt ∧ s'.linear = γ.lin
+    ∧ s'.data = X ++ s.data ∧ (∀ γ' ∈ Γ, GoodAbove γ'.id X) ∧ fnOf s' s'.curfunc = fnOf s s.curfunc
+    ∧ RelF m' s' rs' γ.fr ∧ MExt s m m' ∧ RExt rs rs' ∧ FrameNL s s'
+
+def SimX (code : List Instr) (Γ : List LCtx) (m : Nat → Nat) (s : St) (rs : Ref.St) (env : Nat) (res : Ref.R Val) : Prop :=
+  match res with
+  | .ok v' rs' => ∃ s' m' v, ReachX s s' ∧ Lands code.length v s s' ∧ v' = trf m' v ∧ RelF m' s' rs' env
+      ∧ MExt s m m' ∧ RExt rs rs' ∧ FrameF s s' ∧ VOk m' s' rs' v
+  | .err rs' => FailsX s rs'.trace
+  | .timeout => True
+  | .brk l rs' => ∃ γ, findCtx Γ l = some γ ∧ JumpedF γ.brkPos γ Γ m s rs rs'
+  | .cont l rs' => ∃ γ, findCtx Γ l = some γ ∧ JumpedF γ.contPos γ Γ m s rs rs'
+
+theorem SimF.toX {code : List Instr} {Γ : List LCtx} {m : Nat → Nat} {s : St} {rs : Ref.St} {env : Nat} {res : Ref.R Val}
+    (h : SimF code m s rs env res) : SimX code Γ m s rs env res := by
+  cases res with
+  | ok v rs' => exact h
+  | err rs' => exact h
+  | timeout => trivial
+  | brk l rs' => exact h.elim
+  | cont l rs' => exact h.elim
+
+theorem JumpedF.of_moved {tgt : Int} {γ : LCtx} {Γ : List LCtx} {m m₁ : Nat → Nat} {s s₁ : St} {rs rs₁ rs' : Ref.St}
+    (hreach : ReachX s s₁) (hfn : fnOf s₁ s₁.curfunc = fnOf s s.curfunc) (hdata : s₁.data = s.data)
+    (hm : MExt s m m₁) (hext : RExt rs rs₁) (hframe : FrameF s s₁) (h : JumpedF tgt γ Γ m₁ s₁ rs₁ rs') :
+    JumpedF tgt γ Γ m s rs rs' := by
+  obtain ⟨s', m', X, r, hpc, hlin, hd, hg, hf, rel, hm', ext, fr⟩ := h
+  exact ⟨s', m', X, hreach.trans r, hpc, hlin, by rw [hd, hdata], hg, hf.trans hfn, rel, hm.trans hm' hframe.fnsLen,
+    hext.trans ext, hframe.toNL.trans fr⟩
+
+theorem SimX.seq {code c₂ : List Instr} {Γ : List LCtx} {m m₁ : Nat → Nat} {s s₁' : St} {rs rs₁ : Ref.St} {env k : Nat}
+    {res : Ref.R Val} (hreach : ReachX s s₁') (hmoved : Moved k s s₁') (hm : MExt s m m₁) (hext : RExt rs rs₁)
+    (hframe : FrameF s s₁') (h₂ : SimX c₂ Γ m₁ s₁' rs₁ env res) (hk : k + c₂.length = code.length) :
+    SimX code Γ m s rs env res := by
+  cases res with
+  | ok v rs' =>
+    obtain ⟨s₂, m₂, w, r, l, hv, rel, hm2, ext, fr, hcl⟩ := h₂
+    exact ⟨s₂, m₂, w, (hreach.trans r), hk ▸ hmoved.lands l, hv, rel, hm.trans hm2 hframe.fnsLen, hext.trans ext,
+      hframe.trans fr, hcl⟩
+  | err rs' => exact (FailsX.of_reach hreach h₂)
+  | timeout => trivial
+  | brk l rs' =>
+    obtain ⟨γ, hγ, hj⟩ := h₂
+    exact ⟨γ, hγ, hj.of_moved hreach hmoved.fn hmoved.data hm hext hframe⟩
+  | cont l rs' =>
+    obtain ⟨γ, hγ, hj⟩ := h₂
+    exact ⟨γ, hγ, hj.of_moved hreach hmoved.fn hmoved.data hm hext hframe⟩
+
+theorem SimX.cond_exit {p b rest pre post : List Instr} {Γ : List LCtx} {m m₁ : Nat → Nat} {s s₁' : St} {rs rs₁ : Ref.St}
+    {env : Nat} {res : Ref.R Val}
+    (h : Seg s pre (p ++ [.branch false (b.length + 2)] ++ b ++ [.jump (rest.length + 1)] ++ rest) post)
+    (hreach : ReachX s s₁') (hmoved : Moved (p.length + 1) s s₁') (hm : MExt s m m₁) (hext : RExt rs rs₁)
+    (hframe : FrameF s s₁') (h₂ : SimX b Γ m₁ s₁' rs₁ env res) :
+    SimX (p ++ [.branch false (b.length + 2)] ++ b ++ [.jump (rest.length + 1)] ++ rest) Γ m s rs env res := by
+  cases res with
+  | ok v rs' =>
+    obtain ⟨s₂, m₂, w, r, l, hv, rel, hm2, ext, fr, hcl⟩ := h₂
+    have l2 : Lands (p.length + 1 + b.length) w s s₂ := hmoved.lands l
+    obtain ⟨r3, l3⟩ := glue_cond_exit h l2
+    exact ⟨_, m₂, w, ((hreach.trans r).trans r3.toX), l3, hv, rel.jmp _ _, hm.trans hm2 hframe.fnsLen, hext.trans ext,
+      (hframe.trans fr).trans (FrameF.jmp _ _ _),
+      VOk.ext hcl (FrameF.jmp _ _ _) (RExt.refl _) (MExt.refl _ _)⟩
+  | err rs' => exact (FailsX.of_reach hreach h₂)
+  | timeout => trivial
+  | brk l rs' =>
+    obtain ⟨γ, hγ, hj⟩ := h₂
+    exact ⟨γ, hγ, hj.of_moved hreach hmoved.fn hmoved.data hm hext hframe⟩
+  | cont l rs' =>
+    obtain ⟨γ, hγ, hj⟩ := h₂
+    exact ⟨γ, hγ, hj.of_moved hreach hmoved.fn hmoved.data hm hext hframe⟩
 
 end ZygoVerif.Sim
